@@ -286,11 +286,14 @@ def step_correspondence(prop, tier, seed):
         os.makedirs(d, exist_ok=True)
         cp = os.path.join(d, f"corpus_{prop['id']}.txt")
         open(cp, "w").write("\n".join(corpus) + "\n")
-        comp = prop["jobs"][0]["component"]
-        rc, out = run_vh([comp, seed, 0, "--replay", cp], timeout=1200)
-        if rc != 0:
-            fails.append(Failure("correspondence", "corpus replay", out[-2000:]))
-        allcases += parse_lines(out)
+        # each component's replay executes only the lines that start with its component number
+        firsts = {line.split()[0] for line in corpus}
+        jobs = [j for j in prop["jobs"] if str(j.get("comp_num")) in firsts] or prop["jobs"][:1]
+        for job in jobs:
+            rc, out = run_vh([job["component"], seed, 0, "--replay", cp], timeout=1200)
+            if rc != 0:
+                fails.append(Failure("correspondence", f"corpus replay ({job['component']})", out[-2000:]))
+            allcases += parse_lines(out)
     for job in prop["jobs"]:
         n = job[tier]
         per = max(1, n // NPROC)
